@@ -34,7 +34,7 @@ theorem C03_get_unique_decline (s : State) (src v : Nat) (h : HV) (hs : lookup s
 
 /-- **`try_unique` / `TryFrom` declines ⇒ the very same handle value stays in the slot** -/
 theorem C03_try_unique_decline (s : State) (src : Nat) (h : HV) (hs : lookup s src = some h)
-    (hk : h.kind = .arc) (hty : h.ty = .sized ∨ h.ty = .slice ∨ h.ty = .hs ∨ h.ty = .mu ∨ h.ty = .muSlice)
+    (hk : h.kind = .arc) (hty : h.ty = .sized ∨ h.ty = .slice ∨ h.ty = .hs ∨ h.ty = .hwl ∨ h.ty = .mu ∨ h.ty = .muSlice)
     (hu : Arc.is_unique s.mem h = false) :
     step s (.tryUnique src) = (s, ok "err") := by
   simp [step, hs, hk, hty, Arc.try_unique, hu]
@@ -77,7 +77,7 @@ theorem C03_get_mut_iff (ops : List Op) (src v : Nat) (h : HV) (hl : lookup (run
 
 /-- `try_unique` / `TryFrom<Arc<T>> for UniqueArc<T>` after any history -/
 theorem C03_try_unique_iff (ops : List Op) (src : Nat) (h : HV) (hl : lookup (run ops) src = some h)
-    (hk : h.kind = .arc) (hty : h.ty = .sized ∨ h.ty = .slice ∨ h.ty = .hs ∨ h.ty = .mu ∨ h.ty = .muSlice) :
+    (hk : h.kind = .arc) (hty : h.ty = .sized ∨ h.ty = .slice ∨ h.ty = .hs ∨ h.ty = .hwl ∨ h.ty = .mu ∨ h.ty = .muSlice) :
     (owners (run ops) h.blk = 1 → (step (run ops) (.tryUnique src)).2 = ok "ok") ∧
     (owners (run ops) h.blk ≠ 1 → step (run ops) (.tryUnique src) = (run ops, ok "err")) := by
   constructor
